@@ -432,6 +432,19 @@ func (m *Manager) handleRequestTimeout(requestID uint64) {
 	}
 }
 
+// PendingOpenMatches reports whether the pending open named by requestID was
+// sent to the given peer on the given stream. Request IDs are counters local to
+// each agent, so an acknowledgement or error that belongs to another agent's
+// open (a relay that lost its entry passes it on unchanged) can carry the
+// request ID of one of ours; only the connection and stream it arrives on tell
+// the two apart.
+func (m *Manager) PendingOpenMatches(requestID, streamID uint64, peer identity.AgentID) bool {
+	m.mu.RLock()
+	defer m.mu.RUnlock()
+	pending, ok := m.pendingRequests[requestID]
+	return ok && pending.Stream != nil && pending.Stream.ID == streamID && pending.Stream.RemoteID == peer
+}
+
 // HandleStreamOpenAck processes a STREAM_OPEN_ACK frame.
 func (m *Manager) HandleStreamOpenAck(requestID uint64, boundAddr net.IP, boundPort uint16, remoteEphemeral [crypto.KeySize]byte) (*Stream, error) {
 	m.mu.Lock()
